@@ -47,7 +47,7 @@ type Sched struct {
 	Points     []Point
 	threads    []*thread
 	current    int
-	MapChoices bool // register map-iteration order as choice points
+	MapChoices bool                          // register map-iteration order as choice points
 	SiteOK     func(site string, n int) bool // which map-range sites are choice points (nil = all)
 	Diverged   string
 	Deadlock   bool
@@ -374,4 +374,11 @@ func (m *Mutex) Unlock() {
 	t.clock[t.id]++
 	s.mu.Unlock()
 	s.yield("mutex.Unlock", true)
+}
+
+// Yield is a bare scheduling point (used by the shim sync.Map / atomic operations).
+func Yield(site string, write bool) {
+	if s := Active; s != nil {
+		s.yield(site, write)
+	}
 }
